@@ -14,22 +14,27 @@ def kani_home():
 
 
 def extract_playback(workdir, res, prelude, rust_text, tables_rs, loops, timeout):
-    """Re-runs the failing harness with concrete playback and returns the unit test text."""
+    """Re-runs the failing harness with concrete playback and returns the unit test text.  The shard's own
+    crate and build output are reused when still present (no rebuild, same --unwindset)."""
     d = os.path.join(workdir, "replay_" + res.h.name)
     crate = os.path.join(d, "crate")
-    tgt = os.path.join(d, "target")
-    core.write_crate(crate, prelude + "\n" + rust_text + "\n", tables_rs)
+    os.makedirs(d, exist_ok=True)
     log = os.path.join(d, "playback_extract.log")
-    cbmc_args = list(core.CBMC_BASE)
-    # loop names are only known after codegen
-    rc = core.run_cmd(["cargo", "kani", "--only-codegen", "--target-dir", tgt] + core.KANI_BASE, crate, log, timeout=1800)
-    cbmc_args += core.unwindset_args(core.discover_loops(tgt, core.loop_patterns([res.h])))
+    core.write_crate(crate, prelude + "\n" + rust_text + "\n", tables_rs)   # tiny crate used for the native run
+    if res.shard and os.path.isdir(res.shard[1]):
+        run_crate, tgt, cbmc_args = res.shard
+    else:
+        run_crate, tgt = crate, os.path.join(d, "target")
+        cbmc_args = list(core.CBMC_BASE)
+        core.run_cmd(["cargo", "kani", "--only-codegen", "--target-dir", tgt] + core.KANI_BASE, run_crate, log, timeout=1800)
+        cbmc_args += core.unwindset_args(core.discover_loops(tgt, core.loop_patterns([res.h])))
     cmd = ["cargo", "kani", "--target-dir", tgt, "--exact", "--harness", "gen::" + res.h.name,
            "-Z", "concrete-playback", "--concrete-playback=print",
            "--harness-timeout", "%ds" % timeout] + core.KANI_BASE + ["--cbmc-args"] + cbmc_args
-    core.run_cmd(cmd, crate, log, timeout=timeout + 600)
+    core.run_cmd(cmd, run_crate, log, timeout=timeout + 600)
     text = open(log, errors="replace").read()
-    shutil.rmtree(tgt, ignore_errors=True)
+    if run_crate == crate:
+        shutil.rmtree(tgt, ignore_errors=True)
     tests = re.findall(r"```\s*\n(.*?)```", text, re.S)
     tests = [t for t in tests if "concrete_playback_run" in t]
     # Kani also emits playback tests for satisfied cover properties: those are witnesses, not failures
@@ -141,8 +146,9 @@ def replay_tests(d, crate, tests, harness_name, variants=24, seed=0):
     def run(batch):
         open(gen, "w").write(body0 + "\n" + "\n".join(t for _, t in batch) + "\n")
         dev = native_run_all(crate, False, log)
-        rel = native_run_all(crate, True, log)
-        return [{"test": nm, "dev": dev.get(nm, "error"), "release": rel.get(nm, "error")} for nm, _ in batch]
+        # the release profile (no overflow checks, what users run) only if the dev profile did not reproduce
+        rel = {} if any(v == "failed" for v in dev.values()) else native_run_all(crate, True, log)
+        return [{"test": nm, "dev": dev.get(nm, "error"), "release": rel.get(nm, "not-run" if not rel else "error")} for nm, _ in batch]
 
     outcomes = run(named) if named else []
     if named and not any(o["dev"] == "failed" or o["release"] == "failed" for o in outcomes) and variants:
